@@ -280,6 +280,7 @@ def destructuring_rule(ctx, F):
     side that is padded without bound (`chain(repeat(Null))`), so that missing positions become null.
     A loop driven by the element's items (zip of two finite sides, plus a one-off fix-up) leaves the
     later variables unbound."""
+    import re
     from lib import mir, sym
     prog = F.lib
     S = sym.Sym(prog, inline_depth=0)
@@ -294,6 +295,16 @@ def destructuring_rule(ctx, F):
         in_loop = any(bi in b.reachable_blocks(nx) for nx in b.successors(bi))
         if uses and in_loop:
             loops.append((bi, it))
+    # internal iteration: `<iterator>.try_for_each(|(name, item)| self.define(name, item))`
+    for bi, t in b.calls():
+        if (mir.callee_orig(t) or "") in ("std::iter::Iterator::try_for_each", "std::iter::Iterator::for_each") and len(t["args"]) == 2:
+            cl = S.operand(b, t["args"][1])
+            cdef = cl[1] if isinstance(cl, tuple) and cl[0] == "closure" else None
+            m_ = re.search(r"\('closure', '([^']+)'", repr(cl))
+            cdef = cdef or (m_.group(1) if m_ else None)
+            cb = prog.bodies.get(cdef) if cdef else None
+            if cb is not None and any((mir.callee_name(t2) or "").endswith("Scope>::define") for _, t2 in cb.calls()):
+                loops.append((bi, sym.strip_transparent(S.operand(b, t["args"][0]))))
     if len(loops) != 1:
         ctx.anchor_lost("define_multi binding loop", f"expected one loop whose items are passed to define, found {len(loops)}")
         return
